@@ -423,6 +423,71 @@ func init() {
 		}})
 	}
 
+	// S9: two concurrent Shutdown calls.
+	reg(&Scenario{Name: "S9", Make: func(cfg Cfg) (func(), *Spec) {
+		sp := &Spec{Shutdown: true, Closes: 1}
+		return func() {
+			w := NewWorld(cfg)
+			sdone := make(chan struct{}, 2)
+			w.StartServe(sdone)
+			done := make(chan struct{}, 4)
+			spawn("X1", done, func() { shutdown(w) })
+			spawn("X2", done, func() { shutdown(w) })
+			spawn("P", done, func() { w.With("W1", w.A("1")) })
+			join(done, 3)
+			vsched.Recv(sdone)
+			vsched.AwaitQuiescence()
+		}, sp
+	}})
+
+	// S10: two concurrent Serve calls on one service: one serves, the other is refused.
+	reg(&Scenario{Name: "S10", Make: func(cfg Cfg) (func(), *Spec) {
+		sp := &Spec{Shutdown: true, Closes: 1}
+		return func() {
+			w := NewWorld(cfg)
+			sdone := make(chan struct{}, 2)
+			for i := 0; i < 2; i++ {
+				vsched.Go("serve", func() {
+					err := w.S.Serve(w.C)
+					vsched.Emit(Mon, fmt.Sprintf("serve.ret err=%v", err))
+					vsched.Send(sdone, struct{}{})
+				})
+			}
+			vsched.Recv(w.Served)
+			w.With("W1", w.A("1"))
+			vsched.AwaitQuiescence()
+			shutdown(w)
+			vsched.Recv(sdone)
+			vsched.Recv(sdone)
+			vsched.AwaitQuiescence()
+		}, sp
+	}})
+
+	// S11: Shutdown races with the start-up of Serve.
+	reg(&Scenario{Name: "S11", Make: func(cfg Cfg) (func(), *Spec) {
+		sp := &Spec{Shutdown: true, Closes: 1}
+		return func() {
+			w := NewWorld(cfg)
+			sdone := make(chan struct{}, 2)
+			vsched.Go("serve", func() {
+				err := w.S.Serve(w.C)
+				vsched.Emit(Mon, fmt.Sprintf("serve.ret err=%v", err))
+				vsched.Send(sdone, struct{}{})
+			})
+			vsched.Emit(Mon, "shutdown.call")
+			var err error
+			Guard("Shutdown", func() { err = w.S.Shutdown() })
+			vsched.Emit(Mon, fmt.Sprintf("shutdown.ret err=%v", err))
+			if err != nil {
+				// not started yet: the service comes up, then it is shut down
+				vsched.Recv(w.Served)
+				shutdown(w)
+			}
+			vsched.Recv(sdone)
+			vsched.AwaitQuiescence()
+		}, sp
+	}})
+
 	// S6: a straggling submitter spans a full stop/start cycle.
 	reg(&Scenario{Name: "S6", Make: func(cfg Cfg) (func(), *Spec) {
 		sp := &Spec{Shutdown: true, Closes: 1}
